@@ -37,6 +37,29 @@ theorem countP_erase_add (p : Nat → Bool) :
       simp only [Bool.false_eq_true, if_false, List.countP_cons]
       omega
 
+theorem countP_set_of_eq {α : Type} (p : α → Bool) :
+    ∀ (l : List α) (i : Nat) (a : α) (h : i < l.length), p a = p l[i] → (l.set i a).countP p = l.countP p
+  | [], i, _, h, _ => by simp at h
+  | b :: l, 0, a, _, hp => by
+    simp only [List.getElem_cons_zero] at hp
+    simp [List.countP_cons, hp]
+  | b :: l, i + 1, a, h, hp => by
+    simp only [List.getElem_cons_succ] at hp
+    have ih := countP_set_of_eq p l i a (by simpa using h) hp
+    simp [List.countP_cons, ih]
+
+theorem filter_set_of_not {α : Type} (p : α → Bool) :
+    ∀ (l : List α) (i : Nat) (a : α) (h : i < l.length), p a = false → p l[i] = false →
+      (l.set i a).filter p = l.filter p
+  | [], i, _, h, _, _ => by simp at h
+  | b :: l, 0, a, _, ha, hp => by
+    simp only [List.getElem_cons_zero] at hp
+    simp [ha, hp]
+  | b :: l, i + 1, a, h, ha, hp => by
+    simp only [List.getElem_cons_succ] at hp
+    have ih := filter_set_of_not p l i a (by simpa using h) ha hp
+    simp [List.filter_cons, ih]
+
 theorem upd_same {α : Type} (f : Nat → α) (k : Nat) (v : α) : upd f k v k = v := by simp [upd]
 theorem upd_other {α : Type} (f : Nat → α) (k j : Nat) (v : α) (h : j ≠ k) : upd f k v j = f j := by
   simp [upd, h]
@@ -52,21 +75,28 @@ def goodOrders : List (List Field) :=
     [.rotoConstants, .jit, .registeredFns, .constants], [.registeredFns, .constants, .rotoConstants, .jit],
     [.registeredFns, .rotoConstants, .constants, .jit], [.registeredFns, .rotoConstants, .jit, .constants] ]
 
+/-- the fields whose drop does something the model tracks -/
+def coreFields (fs : List Field) : List Field := fs.filter (fun f => f != Field.plain)
+
 /-- what the theorems need from the implementation's declarations -/
 def goodB (F : Facts) : Bool :=
   F.handleHoldsArc && F.constsCloned && F.fnsCloned
-    && decide (F.freeSites = [FreeSite.wrapperDrop]) && goodOrders.contains F.moduleFields
+    && decide (F.freeSites = [FreeSite.wrapperDrop]) && goodOrders.contains (coreFields F.moduleFields)
+    && F.closureKeepsArc && F.dataHolders.all Holder.heldByHandles && F.testHoldsHandle
 
 structure Good (F : Facts) : Prop where
   holds : F.handleHoldsArc = true
   consts : F.constsCloned = true
   fns : F.fnsCloned = true
   sites : F.freeSites = [FreeSite.wrapperDrop]
-  order : F.moduleFields ∈ goodOrders
+  order : coreFields F.moduleFields ∈ goodOrders
+  closure : F.closureKeepsArc = true
+  data : F.dataHolders.all Holder.heldByHandles = true
+  test : F.testHoldsHandle = true
 
 theorem good_of_goodB {F : Facts} (h : goodB F = true) : Good F := by
   simp only [goodB, Bool.and_eq_true, decide_eq_true_eq, List.contains_iff_mem] at h
-  exact ⟨h.1.1.1.1, h.1.1.1.2, h.1.1.2, h.1.2, h.2⟩
+  exact ⟨h.1.1.1.1.1.1.1, h.1.1.1.1.1.1.2, h.1.1.1.1.1.2, h.1.1.1.1.2, h.1.1.1.2, h.1.1.2, h.1.2, h.2⟩
 
 /-! ### primitive effects, projection by projection -/
 
@@ -305,6 +335,14 @@ structure DropSpec (k : Nat) (s s' : St) : Prop where
       + (if (s.info k).keepConst = true ∧ s.constRc (s.info k).rt - 1 = 0 ∧ x = .regConst (s.info k).rt then 1 else 0)
       + (if (s.info k).keepClos = true ∧ s.closRc (s.info k).rt - 1 = 0 ∧ x = .closure (s.info k).rt then 1 else 0)
 
+/-- fields of plain data drop without any effect on the modelled state -/
+theorem dropFields_core (F : Facts) (k : Nat) : ∀ (fs : List Field) (s : St),
+    dropFields F k fs s = dropFields F k (coreFields fs) s
+  | [], _ => rfl
+  | f :: fs, s => by
+    cases f <;> simp [coreFields, dropFields, dropField] <;>
+      exact dropFields_core F k fs _
+
 theorem dropModule_spec {F : Facts} (hG : Good F) (k : Nat) (s : St) (hm : s.mapped k = true) :
     DropSpec k s (dropModule F k s) := by
   have hsites := hG.sites
@@ -313,6 +351,7 @@ theorem dropModule_spec {F : Facts} (hG : Good F) (k : Nat) (s : St) (hm : s.map
   have hw : FreeSite.wrapperDrop ∈ F.freeSites := by rw [hsites]; decide
   unfold dropModule
   simp only [hnm, if_false]
+  rw [dropFields_core]
   simp only [goodOrders, List.mem_cons, List.not_mem_nil, or_false] at hord
   cases hkc : (s.info k).keepConst <;> cases hkf : (s.info k).keepClos <;>
   rcases hord with h | h | h | h | h | h | h | h | h | h | h | h <;> rw [h] <;>
@@ -347,6 +386,7 @@ structure InvCore (s : St) : Prop where
   expect_ok : ∀ h ∈ s.hs, h.expect = .ok (s.info h.k).value
   uses : ∀ k, ((s.info k).useConst = true → (s.info k).keepConst = true)
       ∧ ((s.info k).useClos = true → (s.info k).keepClos = true)
+      ∧ (s.info k).dataHolders.all Holder.heldByHandles = true
 
 structure Inv (s : St) : Prop extends InvCore s where
   strong_eq : ∀ k, s.strong k = owners s k
@@ -638,6 +678,20 @@ theorem InvCore.sc_alive {s : St} (hc : InvCore s) {k : Nat} (hk : 0 < s.strong 
   have hne : ¬ s.strong k = 0 := by omega
   rw [hc.sc_rel]; simp [hne]
 
+/-- the out-of-line data of a module somebody still owns is there: every holder is
+    the JIT module or `ModuleData` -/
+theorem dataAlive_of_mapped {s : St} (hc : InvCore s) {k : Nat} (hk : 0 < s.strong k) :
+    dataAlive s k = true := by
+  have hm : s.mapped k = true := by rw [hc.mapped_eq]; simpa using hk
+  have hal : s.alive.contains k = true := by simpa using hc.mem_alive hk
+  have hd := (hc.uses k).2.2
+  rw [List.all_eq_true] at hd
+  unfold dataAlive
+  rw [List.all_eq_true]
+  intro h hh
+  have := hd h hh
+  cases h <;> simp_all [holderAlive, Holder.heldByHandles]
+
 theorem callRes_ok {s : St} (hc : InvCore s) {k : Nat} (hk : 0 < s.strong k) :
     callRes s k = .ok (s.info k).value := by
   have hm : s.mapped k = true := by rw [hc.mapped_eq]; simpa using hk
@@ -652,8 +706,10 @@ theorem callRes_ok {s : St} (hc : InvCore s) {k : Nat} (hk : 0 < s.strong k) :
     cases h : (s.info k).useClos
     · rfl
     · simp only [Bool.not_true, Bool.false_or]
-      exact unreleased_of_relCount_zero (hc.clos_alive hk ((hc.uses k).2 h))
-  simp only [callRes, hm, hsc, huc, huf, Bool.and_self, if_true]
+      exact unreleased_of_relCount_zero (hc.clos_alive hk ((hc.uses k).2.1 h))
+  have hud : (!(s.info k).useData || dataAlive s k) = true := by
+    rw [dataAlive_of_mapped hc hk]; simp
+  simp only [callRes, hm, hsc, huc, huf, hud, Bool.and_self, if_true]
 
 theorem Inv.strong_pos_of_handle {s : St} (hI : Inv s) {h : Handle} (hh : h ∈ s.hs) : 0 < s.strong h.k := by
   rw [hI.strong_eq]
@@ -730,6 +786,30 @@ theorem addHandle_inv {s : St} (hI : Inv s) (h : Handle) (hk : 0 < s.strong h.k)
     · rw [upd_other _ _ _ _ hj]
       have : (h.k == j) = false := by simpa using fun e => hj e.symm
       simp [this]; omega
+
+/-- `into_func` with a closure that owns the whole handle: the handle becomes a
+    closure object, nothing else changes -/
+theorem intoFunc_inv {s : St} (hI : Inv s) (i : Nat) (h : Handle) (hi : s.hs[i]? = some h) :
+    Inv { s with hs := s.hs.set i { h with isFn := true } } := by
+  have hc := hI.toInvCore
+  obtain ⟨hlt, hget⟩ := List.getElem?_eq_some_iff.1 hi
+  have hmem : h ∈ s.hs := List.mem_of_getElem? hi
+  have hsub : ∀ x ∈ s.hs.set i { h with isFn := true }, x ∈ s.hs ∨ x = { h with isFn := true } :=
+    fun x hx => List.mem_or_eq_of_mem_set hx
+  refine ⟨⟨?_, hc.alive_cnt, hc.constRc_eq, hc.closRc_eq, hc.const_rel, hc.const_ever, hc.clos_rel, hc.clos_ever,
+    hc.code_rel, hc.mapped_eq, hc.compiled_strong, hc.sc_rel, hc.no_fault, ?_, hc.uses⟩, ?_⟩
+  · intro x hx
+    rcases hsub x hx with hx | hx
+    · exact hc.holds x hx
+    · subst hx; exact hc.holds h hmem
+  · intro x hx
+    rcases hsub x hx with hx | hx
+    · exact hc.expect_ok x hx
+    · subst hx; exact hc.expect_ok h hmem
+  · intro j
+    show s.strong j = s.pkgs.count j + (s.hs.set i { h with isFn := true }).countP (fun x => x.k == j)
+    rw [countP_set_of_eq (fun x : Handle => x.k == j) s.hs i _ hlt (by rw [hget])]
+    exact hI.strong_eq j
 
 /-- the runtime lets go of its registered constant -/
 theorem dropRtConst_inv {s : St} (hc : InvCore s) {r : Nat} (hr : r ∈ s.rtConst) :
